@@ -1,10 +1,10 @@
 package gosym
 
 import (
-	"io/fs"
 	"crypto/sha256"
 	"fmt"
 	"go/types"
+	"io/fs"
 	"path/filepath"
 	"sort"
 	"strconv"
@@ -32,7 +32,7 @@ func (e *HostErr) Call(c *Ctx, m string, a []Value) Value {
 var hostErrType = types.NewNamed(types.NewTypeName(0, nil, "hostError", nil), types.NewStruct(nil, nil), nil)
 var hostObjType = types.NewNamed(types.NewTypeName(0, nil, "hostObject", nil), types.NewStruct(nil, nil), nil)
 
-func mkErr(msg Str) Value { return Iface{T: hostErrType, V: &HostErr{Msg: msg}} }
+func mkErr(msg Str) Value     { return Iface{T: hostErrType, V: &HostErr{Msg: msg}} }
 func mkErrS(msg string) Value { return mkErr(Conc(msg)) }
 
 // ErrText returns the text of an error-typed interface value ("" , false for nil).
@@ -263,9 +263,9 @@ func init() {
 		},
 		"path/filepath.ToSlash":   func(c *Ctx, a []Value) Value { return a[0] },
 		"path/filepath.FromSlash": func(c *Ctx, a []Value) Value { return a[0] },
-		"path/filepath.Dir":  func(c *Ctx, a []Value) Value { return Conc(filepath.Dir(c.pathArg(a[0]))) },
-		"path/filepath.Base": func(c *Ctx, a []Value) Value { return Conc(filepath.Base(c.pathArg(a[0]))) },
-		"path/filepath.Ext":  func(c *Ctx, a []Value) Value { return Conc(filepath.Ext(c.pathArg(a[0]))) },
+		"path/filepath.Dir":       func(c *Ctx, a []Value) Value { return Conc(filepath.Dir(c.pathArg(a[0]))) },
+		"path/filepath.Base":      func(c *Ctx, a []Value) Value { return Conc(filepath.Base(c.pathArg(a[0]))) },
+		"path/filepath.Ext":       func(c *Ctx, a []Value) Value { return Conc(filepath.Ext(c.pathArg(a[0]))) },
 
 		"crypto/sha256.New": func(c *Ctx, a []Value) Value { return Iface{T: hostObjType, V: &HostHash{}} },
 	}
@@ -1142,7 +1142,7 @@ func (h *HostHash) Call(c *Ctx, m string, a []Value) Value {
 	return nil
 }
 
-func (h *HostHex) HostType() string                        { return "hexsum" }
+func (h *HostHex) HostType() string                       { return "hexsum" }
 func (h *HostHex) Call(c *Ctx, m string, a []Value) Value { c.Unsupported("hexsum." + m); return nil }
 
 // ---------------------------------------------------------------- os
